@@ -295,11 +295,11 @@ class Solver:
         Returns:
             None
         """
-        modes1 = set(structure1.get_pin_modenames(pin1))
-        modes2 = set(structure2.get_pin_modenames(pin2))
+        modes1 = set(structure1.get_pin_modenames(basename1))
+        modes2 = set(structure2.get_pin_modenames(basename2))
         if modes1 != modes2:
             logger.error(
-                f"{pin1} in {structure1} and {pin2} in {structure2} and have differents modes: only matching modes connected"
+                f"{basename1} in {structure1} and {basename2} in {structure2} and have differents modes: only matching modes connected"
             )
         modes = modes1.intersection(modes2)
         for m in modes:
